@@ -126,6 +126,10 @@ pub enum Update {
     OutputScripts,
     OutputTapInternalKey,
     UnknownInMap,
+    /// may change the unique id (callers that need id-preserving edits filter on the id)
+    RequiredLocktime,
+    OutputBlinderIndex,
+    OutputBlindingKey,
 }
 
 pub fn apply_update(r: &mut Rg, p: &mut Pset, u: &Update) -> bool {
@@ -139,7 +143,7 @@ pub fn apply_update_at(r: &mut Rg, p: &mut Pset, u: &Update, ii: usize, oi: usiz
     let ni = p.n_inputs();
     let no = p.n_outputs();
     match u {
-        Update::OutputExplicitProofs | Update::OutputBip32 | Update::OutputScripts | Update::OutputTapInternalKey => {
+        Update::OutputExplicitProofs | Update::OutputBip32 | Update::OutputScripts | Update::OutputTapInternalKey | Update::OutputBlinderIndex | Update::OutputBlindingKey => {
             if no == 0 {
                 return false;
             }
@@ -260,6 +264,36 @@ pub fn apply_update_at(r: &mut Rg, p: &mut Pset, u: &Update, ii: usize, oi: usiz
             }
         }
         Update::OutputTapInternalKey => p.outputs_mut()[oi].tap_internal_key = Some(gp::xonly(r)),
+        Update::RequiredLocktime => {
+            // a lock time no stronger than one another input already requires (so that the
+            // transaction lock time, hence the id, usually stays the same), of the kind in use
+            let max_h = p.inputs().iter().filter_map(|i| i.required_height_locktime).map(|h| h.to_consensus_u32()).max();
+            let max_t = p.inputs().iter().filter_map(|i| i.required_time_locktime).map(|t| t.to_consensus_u32()).max();
+            let inp = &mut p.inputs_mut()[ii];
+            match (max_h, max_t) {
+                (Some(h), _) if inp.required_height_locktime.is_none() && h >= 1 => {
+                    inp.required_height_locktime = elements::locktime::Height::from_consensus(r.gen_range(1..=h)).ok();
+                }
+                (_, Some(t)) if inp.required_time_locktime.is_none() => {
+                    inp.required_time_locktime = elements::locktime::Time::from_consensus(r.gen_range(500_000_000..=t)).ok();
+                }
+                _ => return false,
+            }
+        }
+        Update::OutputBlinderIndex => {
+            let o = &mut p.outputs_mut()[oi];
+            if o.blinder_index.is_some() {
+                return false;
+            }
+            o.blinder_index = Some(r.gen_range(0..ni.max(1)) as u32);
+        }
+        Update::OutputBlindingKey => {
+            let o = &mut p.outputs_mut()[oi];
+            if o.blinding_key.is_some() {
+                return false;
+            }
+            o.blinding_key = Some(gp::btc_pubkey(r));
+        }
         Update::UnknownInMap => {
             let (k, v) = (gp::unknown_key(r), gen::bytes(r, 5));
             if ni > 0 && (no == 0 || r.gen_range(0..2) == 0) {
@@ -299,6 +333,9 @@ pub const UPDATES: [Update; 23] = [
     Update::OutputTapInternalKey,
     Update::UnknownInMap,
 ];
+
+/// update kinds that need not preserve the unique id (used by the merge families, which filter on the id)
+pub const MERGE_ONLY_UPDATES: [Update; 3] = [Update::RequiredLocktime, Update::OutputBlinderIndex, Update::OutputBlindingKey];
 
 fn lock_values() -> (Vec<u32>, Vec<u32>) {
     // time values (>= threshold), height values (< threshold)
@@ -436,6 +473,14 @@ pub fn run(ctx: &mut Ctx) {
             } else {
                 i.required_height_locktime = None;
             }
+        }
+        // one case in six: an input spending the null outpoint (coinbase form)
+        if k % 6 == 5 && p.n_inputs() > 0 {
+            let i = ctx.rng.gen_range(0..p.n_inputs());
+            let inp = &mut p.inputs_mut()[i];
+            inp.previous_txid = elements::Txid::from_byte_array([0u8; 32]);
+            inp.previous_output_index = 0xffff_ffff;
+            ctx.count("unique-id-bases-with-null-outpoint-input");
         }
         let Ok(id0) = p.unique_id() else {
             ctx.count("base-without-unique-id");
